@@ -549,7 +549,11 @@ class Store:
 
     def _merge_subtopology(self, subtopology):
         """Merge a new subtopology with the store's existing one."""
-        self.subtopology = deep_merge(self.subtopology, subtopology)
+        # Merge a copy: the dictionaries of ``subtopology`` belong to the
+        # topology of the process that declared them (see
+        # _apply_subschema_config).
+        self.subtopology = deep_merge(
+            self.subtopology, deep_copy_internal(subtopology))
 
     def _apply_subschema_config(self, subschema):
         """Merge a new subschema config with the current subschema."""
